@@ -22,6 +22,7 @@ from stone.ir import (
     is_string_type,
     is_tag_ref,
     is_user_defined_type,
+    unwrap_aliases,
     unwrap_nullable,
 )
 from .helpers import split_words
@@ -178,9 +179,12 @@ def fmt_var(name):
 
 def fmt_default_value(field):
     if is_tag_ref(field.default):
+        # The field may name the union through an alias; aliases are not
+        # declared in the output.
+        union_data_type, _ = unwrap_aliases(field.default.union_data_type)
         return '{}.{}Serializer().serialize(.{})'.format(
-            fmt_class(field.default.union_data_type.namespace.name),
-            fmt_class(field.default.union_data_type.name),
+            fmt_class(union_data_type.namespace.name),
+            fmt_class(union_data_type.name),
             fmt_var(field.default.tag_name))
     elif is_list_type(field.data_type):
         return '.array({})'.format(field.default)
